@@ -1828,7 +1828,7 @@ def layer_b(ctx, stats):
 
 
 # ------------------------------------------------------------------ layer C: calls of functions that write module names
-CALL_VARIANTS = ("module", "if", "two", "main", "fn", "for", "fn", "module", "param", "fnfwd", "two", "main", "if", "fnvia", "module", "fn", "fnrec")
+CALL_VARIANTS = ("module", "if", "two", "main", "fn", "for", "fn", "module", "param", "fnfwd", "two", "main", "if", "fnvia", "module", "fn", "fnrec", "fnblk")
 LIST_LITS = ["[1, 0, 1]", "[0, 1]", "[7]", "[1, 1, 0, 255]", "[]", "[2, 0, 2]"]
 
 
@@ -1844,7 +1844,8 @@ def gen_call_program(rng, variant):
     body of a second function ('fn': every re-binding form, as at module level - the region the repaired finding
     F-C03-stale-after-call-in-function used to exclude; 'fnfwd': the writer is defined AFTER the calling function; 'fnvia':
     the calling function reaches the writer through a third function; 'fnrec': the writer is the calling function
-    itself, recursing behind a run-time condition).
+    itself, recursing behind a run-time condition; 'fnblk': the calling sequence inside an if / try / for / while block of
+    the calling function's body).
     -> (program, parts) with parts = (prefix, body, first, rest) for the model (Lang/ConstCall.v)"""
     m = rng.choice(RT_N)
     prefix = [("rt", m, rng.choice(sorted(RT_PINS)))]
@@ -1986,6 +1987,10 @@ def gen_call_program(rng, variant):
         prog = prefix + [d, rng.choice([("if", seq, []), ("if", [("val", m)], seq), ("if", seq, [], "try")])]
     elif variant == "for":
         prog = prefix + [d, rng.choice([("for", LOOPV[0], seq, rng.choice([1, 2])), ("for", LOOPV[0], seq), ("while", seq)])]
+    elif variant == "fnblk":
+        # the calling sequence inside a block of the calling function's body
+        blk = rng.choice([("if", seq, []), ("if", seq, [], "try"), ("for", LOOPV[0], seq, rng.choice([1, 2])), ("while", seq)])
+        prog = prefix + [d, ("def", "us", [], [blk], "g"), ("call", "us", [], [])]
     elif variant == "fnfwd":
         prog = prefix + [("def", "us", [], seq, "g"), d, ("call", "us", [], [])]
     elif variant == "fnvia":
@@ -2291,7 +2296,7 @@ def run(ctx: C.Ctx):
         "distinct_nontrivial": d_a + d_b + d_c,
         "programs": n_b + n_c,
         "sketches_compiled": n_sk + n_sk_c,
-        "rule": "(round 4 - layer C, calls of functions that write module-level names: module constants (lists, strings, ints) bound before the def; def gr(): appends a constant or a run-time value to a module list, `global s; s = s + 'x'`, augmented assignment, a plain constant, one tuple assignment of two globals, optionally under an if, optionally printing a length; then [re-bind a written name; gr(); fold it] 1-3 times where the re-binding is EVERY statement form - plain assignment, tuple assignment in either target order and as a swap of two strings, augmented assignment, a list comprehension over a literal range, assignment followed by append of a constant, the assignment (plain or tuple) inside if / else / try / for / while, or nothing at all (the name was forgotten at the def) - never a plain assignment between the re-binding and the call; folds: len(name), mon.write(name), rarely flash_pattern(name) / a glyph row (refused by the transpiler: nothing to bake). Variants: calling sequence at module level (model correspondence: accepted / rejected, folded constants of the calling sequence and of the body vs the real IR, model reference semantics vs CPython, model firmware vs real firmware), as the body of a second function (same correspondence with in_fn = 1, every re-binding form - the region the repaired finding F-C03-stale-after-call-in-function used to exclude), the same with the writer defined AFTER the calling function / reached through a third function / being the calling function itself, recursing behind a run-time condition (oracle only), inside the main loop 1-3 passes / inside an if body, an else branch or a try body / inside a for or while body run 0-3 times / two writer functions with the second def after the first statements / a writer with an int parameter (oracle only: firmware observations = CPython's; the guard is the model's calls_ok of the straight-line sequence).) (round 3 additions - A: sensor-model-shaped expressions ('HC-SR04' spellings, concatenations, names bound to model strings) through Ultrasonic(7, 8, model=<e>) and every sampled expression through Led(<e>): the folded model / pin is what the argument names at run time. B: tuple assignments at every depth and in every program family (swaps and 3-rotations of int / str names whose tracked constants differ, `x, y = <new string>, len(x)` and three-target forms whose last right-hand side reads both earlier targets, pairs of expressions where the second reads the first target; all-new pairs at module level), each followed by the fold sites that read the targets (len(target), a glyph bitmap built from the targets, append(target) + flash_pattern); flash_pattern(name) followed by append / remove of constants to the same list - in the same block, in a taken-or-not branch, in a for body - and a second flash_pattern; try / except blocks (sent to the model as `if <true>: body else: handler`; the head of every handler prints a marker so that a CPython run that enters a handler is discarded); removes that prefer a duplicated value; a family of small scenario programs built around one such fold site each; a failing program is shrunk by deleting simple statements (re-checked against the guard of the extracted model) before it is reported.) A: boundary expressions (every node kind _eval_const looks at, each operator with int/float/bool/str operands, error sources, hostile forms) x 3-5 environments (known int/float/bool/str/list/tuple, a marker, an unbound name), then seeded random expressions (harness/pyast_wire.gen_expr, depth 1-4) - each through the extracted model and the real _eval_const/_expr_has_name/_to_c_expr, a sample also through parse() at the blink/backlight/glyph/sleep call sites with the environment set up by assignments; non-trivial (A) = distinct (expression, environment) on which the real evaluator returned a value inside the guard and the CPython comparison ran. B: seeded programs (assign / augmented assign / run-time read / append / remove / len(name) / flash_pattern(name) / lcd.glyph(0, [rows]) / mon.write(name) = the run-time value of a variable; at module level a 'retune' pattern: a constant is re-assigned and then used in the FIRST assignment of another module-level name, which is then printed - the static-initialiser vs run-time-assignment split; a fifth of the programs additionally use tuple assignment, oracle only) under if, while, for and - every fourth program - the sketch's main loop `while True:` run 1-3 passes; 80 % generated inside the guard; every second guarded program is generated for the FLOW guard: tracked constants are re-assigned / appended inside branches and loop bodies, if / elif / else chains of 1-3 branches where 60 % of the branches with later siblings re-assign a tracked constant and the later siblings fold it (len / glyph row) from the snapshot, loop bodies that write tracked constants nothing folds, for-loop variables named like a tracked module constant followed by a re-assignment with a probe (a string formatted from the binder, and its length) in the body; a further quarter of the programs define a function whose formal arguments are mostly named like tracked module constants of the same type, with len(argument) / glyph / flash_pattern / len(module constant) / locals in the body, module statements between the def and 1-2 calls (some re-assigning a constant the body folds), arguments that differ from the same-named constants) with one seeded execution path each (branches taken or not, loops 0-3 times): real parse() IR vs model residual (folded constants; which module-level first assignments became static initialisers and which stayed in setup()), CPython run vs model reference semantics, firmware run (batched sketches, g++, mock core) vs model firmware outputs; non-trivial (B) = distinct program inside the guard that ran on both sides with >= 2 observations.",
+        "rule": "(round 4 - layer C, calls of functions that write module-level names: module constants (lists, strings, ints) bound before the def; def gr(): appends a constant or a run-time value to a module list, `global s; s = s + 'x'`, augmented assignment, a plain constant, one tuple assignment of two globals, optionally under an if, optionally printing a length; then [re-bind a written name; gr(); fold it] 1-3 times where the re-binding is EVERY statement form - plain assignment, tuple assignment in either target order and as a swap of two strings, augmented assignment, a list comprehension over a literal range, assignment followed by append of a constant, the assignment (plain or tuple) inside if / else / try / for / while, or nothing at all (the name was forgotten at the def) - never a plain assignment between the re-binding and the call; folds: len(name), mon.write(name), rarely flash_pattern(name) / a glyph row (refused by the transpiler: nothing to bake). Variants: calling sequence at module level (model correspondence: accepted / rejected, folded constants of the calling sequence and of the body vs the real IR, model reference semantics vs CPython, model firmware vs real firmware), as the body of a second function (same correspondence with in_fn = 1, every re-binding form - the region the repaired finding F-C03-stale-after-call-in-function used to exclude), the same with the writer defined AFTER the calling function / reached through a third function / being the calling function itself, recursing behind a run-time condition / with the calling sequence inside an if, try, for or while block of the calling function's body (oracle only), inside the main loop 1-3 passes / inside an if body, an else branch or a try body / inside a for or while body run 0-3 times / two writer functions with the second def after the first statements / a writer with an int parameter (oracle only: firmware observations = CPython's; the guard is the model's calls_ok of the straight-line sequence).) (round 3 additions - A: sensor-model-shaped expressions ('HC-SR04' spellings, concatenations, names bound to model strings) through Ultrasonic(7, 8, model=<e>) and every sampled expression through Led(<e>): the folded model / pin is what the argument names at run time. B: tuple assignments at every depth and in every program family (swaps and 3-rotations of int / str names whose tracked constants differ, `x, y = <new string>, len(x)` and three-target forms whose last right-hand side reads both earlier targets, pairs of expressions where the second reads the first target; all-new pairs at module level), each followed by the fold sites that read the targets (len(target), a glyph bitmap built from the targets, append(target) + flash_pattern); flash_pattern(name) followed by append / remove of constants to the same list - in the same block, in a taken-or-not branch, in a for body - and a second flash_pattern; try / except blocks (sent to the model as `if <true>: body else: handler`; the head of every handler prints a marker so that a CPython run that enters a handler is discarded); removes that prefer a duplicated value; a family of small scenario programs built around one such fold site each; a failing program is shrunk by deleting simple statements (re-checked against the guard of the extracted model) before it is reported.) A: boundary expressions (every node kind _eval_const looks at, each operator with int/float/bool/str operands, error sources, hostile forms) x 3-5 environments (known int/float/bool/str/list/tuple, a marker, an unbound name), then seeded random expressions (harness/pyast_wire.gen_expr, depth 1-4) - each through the extracted model and the real _eval_const/_expr_has_name/_to_c_expr, a sample also through parse() at the blink/backlight/glyph/sleep call sites with the environment set up by assignments; non-trivial (A) = distinct (expression, environment) on which the real evaluator returned a value inside the guard and the CPython comparison ran. B: seeded programs (assign / augmented assign / run-time read / append / remove / len(name) / flash_pattern(name) / lcd.glyph(0, [rows]) / mon.write(name) = the run-time value of a variable; at module level a 'retune' pattern: a constant is re-assigned and then used in the FIRST assignment of another module-level name, which is then printed - the static-initialiser vs run-time-assignment split; a fifth of the programs additionally use tuple assignment, oracle only) under if, while, for and - every fourth program - the sketch's main loop `while True:` run 1-3 passes; 80 % generated inside the guard; every second guarded program is generated for the FLOW guard: tracked constants are re-assigned / appended inside branches and loop bodies, if / elif / else chains of 1-3 branches where 60 % of the branches with later siblings re-assign a tracked constant and the later siblings fold it (len / glyph row) from the snapshot, loop bodies that write tracked constants nothing folds, for-loop variables named like a tracked module constant followed by a re-assignment with a probe (a string formatted from the binder, and its length) in the body; a further quarter of the programs define a function whose formal arguments are mostly named like tracked module constants of the same type, with len(argument) / glyph / flash_pattern / len(module constant) / locals in the body, module statements between the def and 1-2 calls (some re-assigning a constant the body folds), arguments that differ from the same-named constants) with one seeded execution path each (branches taken or not, loops 0-3 times): real parse() IR vs model residual (folded constants; which module-level first assignments became static initialisers and which stayed in setup()), CPython run vs model reference semantics, firmware run (batched sketches, g++, mock core) vs model firmware outputs; non-trivial (B) = distinct program inside the guard that ran on both sides with >= 2 observations.",
         "samples": [{"expr": x} for x in s_a] + [{"program": x} for x in s_b],
         "distribution": dict(sorted(stats.items())),
         "guard": "A: in_guard (no one-argument max/min), no variable named like a builtin of _SAFE_NAME_REFERENCES. B: is_fresh (ConstEnv.tblock's flag) - since the repair of the stale-fold findings only single-statement side conditions: every folded expression inside in_guard, no variable named like a builtin the evaluator interprets, a remove with a constant argument finds it in the tracked list; NOTHING about where a name is assigned / appended to / removed from (branches, loop bodies, try bodies, run-time arguments are all inside) - and def_ok for every call of a defined function (the same side conditions for prefix, body and the statements before the call; formal arguments not named like a builtin); split_ok = is_fresh and the hoisting side conditions of C03_global_split_partial. Layer C: calls_ok (the same single-statement side conditions for prefix, body and every segment of the calling sequence) - nothing about which statement re-binds a written name, nor about the scope of the calling sequence (module level or the body of another function: F-C03-stale-after-call-in-function is repaired). A program goes to the oracle when the extracted model says so. The witnesses of the nine repaired findings (kind=fixed) are replayed first on every run: one that fails again is reported as a VIOLATION with the witness as replay.",
